@@ -559,17 +559,12 @@ example :
       linfDist p q = 1/4 ∧ linfDist (smooth g [] 1 p) q = 0 := by decide +kernel
 
 /-
-Full statement of a convergence *rate* (not proved): on an anchored graph whose free junctions are at most `d` links from
-the frame and have at most `Δ` neighbours, `d` sweeps shrink the max-norm distance to the fixed point by the factor
-`1 − Δ^(−d)`; hence the positions converge geometrically.  Proved part: the first level of that argument — the update of
-a free junction that has a neighbour on the frame (same value in `p` and in the fixed point `q`) leaves it with an
-error of at most `(1 − 1/degree)·M` when all errors are at most `M`.  Missing: the propagation through the levels
-(a junction at level `k+1` has a neighbour at level `k` whose bound `(1 − Δ^(−k))·M` persists under later updates), an
-induction over sweeps inside an induction over the fold of one sweep, with levels defined from `Reach`.
+The first level of the rate argument (the full statement is `T_C15_rate` / `T_C15_rate_geometric` below): the update of a
+free junction that has a neighbour on the frame leaves it with an error of at most `(1 − 1/degree)·M`.
 -/
 /-- first level of the rate: next to the frame one update contracts the error by `1 − 1/degree` (any coordinate or
     linear functional `c` of the position, any graph, in-place order) -/
-theorem T_C15_rate_partial (g : Grid) (fixed : List Nat) (q p : List V3) (j t : Nat) {c : V3 → Rat} (hc : IsLin c)
+theorem T_C15_rate_first_level (g : Grid) (fixed : List Nat) (q p : List V3) (j t : Nat) {c : V3 → Rat} (hc : IsLin c)
     (hq : smooth g fixed 1 q = q) (hj : j ∈ inner g) (hf : j ∉ fixed) (hl : j < p.length) (hlq : j < q.length)
     (ht : t ∈ junctionNbrs g j) (ht0 : pget p t = pget q t)
     (M : Rat) (hM : ∀ i, |c (pget p i) - c (pget q i)| ≤ M) :
@@ -661,6 +656,55 @@ theorem T_C15_rate (g : Grid) (fixed : List Nat) (lvl : Nat → Nat) (Δ d : Nat
   · rw [← bnd_closed (Δ : Rat) (by linarith) d]; exact (bnd_range (Δ : Rat) hD d).1
   · rw [coordDist_le_iff]
     exact ⟨key isLin_x hx i, key isLin_y hy i, key isLin_z hz i⟩
+
+/-- … hence **geometric convergence**: after `k·d` iterations the distance is at most `(1 − Δ^(−d))^k` times the initial
+    one, and the factor is strictly below 1 — "after enough iterations each free point equals its neighbours' average"
+    with an explicit bound on how many are enough. -/
+theorem T_C15_rate_geometric (g : Grid) (fixed : List Nat) (lvl : Nat → Nat) (Δ d : Nat) (hL : Levelled g fixed lvl Δ d)
+    (q p : List V3) (hq : smooth g fixed 1 q = q) (hp : p.length = g.n) (hqn : q.length = g.n)
+    (hb : ∀ i, isBoundary g i = true ∨ i ∈ fixed → pget p i = pget q i) (k : Nat) :
+    linfDist (smooth g fixed (k * d) p) q ≤ (1 - (1 / (Δ : Rat)) ^ d) ^ k * linfDist p q ∧
+    0 ≤ 1 - (1 / (Δ : Rat)) ^ d ∧ 1 - (1 / (Δ : Rat)) ^ d < 1 := by
+  have hD : (1 : Rat) ≤ (Δ : Rat) := by exact_mod_cast hL.1
+  have hr0 : 0 ≤ 1 - (1 / (Δ : Rat)) ^ d := by
+    rw [← bnd_closed (Δ : Rat) (by linarith) d]; exact (bnd_range (Δ : Rat) hD d).1
+  have hr1 : 1 - (1 / (Δ : Rat)) ^ d < 1 := by
+    have : 0 < (1 / (Δ : Rat)) ^ d := pow_pos (by apply div_pos <;> linarith) d
+    linarith
+  refine ⟨?_, hr0, hr1⟩
+  induction k with
+  | zero => simp [smooth, iter]
+  | succ k ih =>
+    have hsplit : smooth g fixed ((k + 1) * d) p = smooth g fixed d (smooth g fixed (k * d) p) := by
+      unfold smooth; rw [Nat.succ_mul, iter_add]
+    have hp' : (smooth g fixed (k * d) p).length = g.n := by
+      unfold smooth; rw [iter_length _ (fun r => sweep_length _ _ _ r)]; exact hp
+    have hb' : ∀ i, isBoundary g i = true ∨ i ∈ fixed → pget (smooth g fixed (k * d) p) i = pget q i := by
+      intro i hi
+      rw [(T_C15_frame g fixed (k * d) p i (by rcases hi with h | h; exact Or.inl h; exact Or.inr (Or.inl h))).1]
+      exact hb i hi
+    rw [hsplit, pow_succ]
+    calc linfDist (smooth g fixed d (smooth g fixed (k * d) p)) q
+        ≤ (1 - (1 / (Δ : Rat)) ^ d) * linfDist (smooth g fixed (k * d) p) q :=
+          T_C15_rate g fixed lvl Δ d hL q _ hq hp' hqn hb'
+      _ ≤ (1 - (1 / (Δ : Rat)) ^ d) * ((1 - (1 / (Δ : Rat)) ^ d) ^ k * linfDist p q) :=
+          mul_le_mul_of_nonneg_left ih hr0
+      _ = (1 - (1 / (Δ : Rat)) ^ d) ^ k * (1 - (1 / (Δ : Rat)) ^ d) * linfDist p q := by ring
+
+/-- non-vacuity: the 3×3 map (all four interior points next to the rim: depth 1, degree 4 — factor 3/4 per sweep) and
+    the 4×4 map (centre point 12 at level 2: factor 15/16 per two sweeps) are levelled -/
+example : Levelled (structQuads 3 3) [] (fun i => if i ∈ [5, 6, 9, 10] then 1 else 0) 4 1 ∧
+    Levelled (structQuads 4 4) [] (fun i => if i = 12 then 2 else if i ∈ [6, 7, 8, 11, 13, 16, 17, 18] then 1 else 0) 4 2 ∧
+    inner (structQuads 4 4) = [6, 7, 8, 11, 12, 13, 16, 17, 18] := by
+  unfold Levelled; decide +kernel
+
+/-- … and the bound is met on a concrete run: 3×3 map, three interior points displaced by 1/4, distance 1/4 before and
+    11/64 ≤ (3/4)·(1/4) after one sweep -/
+example :
+    let g := structQuads 3 3
+    let q := latticePts 3 3 ⟨0, 0, 0⟩ ⟨1, 0, 0⟩ ⟨0, 1, 0⟩
+    let p := ((q.set 5 ⟨5/4, 1, 0⟩).set 6 ⟨9/4, 1, 0⟩).set 9 ⟨5/4, 2, 0⟩
+    linfDist p q = 1/4 ∧ linfDist (smooth g [] 1 p) q ≤ (1 - (1 / (4 : Rat)) ^ 1) * (1/4) := by decide +kernel
 
 /-- **Uniqueness of the fixed point (discrete maximum principle)**, every graph: two position lists that are both
     unchanged by a sweep and agree on all boundary and fixed junctions are equal, as soon as every free inner
@@ -779,8 +823,8 @@ example :
 
 /-- The statement skeletons of every method on the execution path of `SmootherBase.smooth`, regenerated from the
     *current* source with `ast` on every run (`cbv/tables/c15.py`: one string per statement, `depth:text`, locals
-    renamed a0, a1, …), are the ones the model was transcribed from: the two nested loops of `smooth` with the
-    `continue` on fixed junctions, the neighbour positions read through `Junction.point` (a view of the shared
+    renamed a0, a1, …; a guard-`continue` and its positive-block form are one shape), are the ones the model was
+    transcribed from: the two nested loops of `smooth` skipping fixed junctions, the neighbour positions read through `Junction.point` (a view of the shared
     array: **in place**, Gauss–Seidel), the write to `self.grid.points[index]`, `backport` after the loops; the
     inner junctions in index order; `fix_indexes` / `fix_points` adding to the set (`< TOL`); the guards and the order
     of `get_common_side`, `add_neighbour` (cell and junction), `boundary`, `is_boundary`; the order of the binding
@@ -790,10 +834,9 @@ theorem T_C15_source_skeleton :
       ["def smooth(self, a0)",
        "0:for _ in range(a0)",
        "1:for a1 in self.inner",
-       "2:if a1.index in self.fixed",
-       "3:continue",
-       "2:a2 = [a3.point for a3 in a1.neighbours]",
-       "2:self.grid.points[a1.index] = np.average(a2, axis=0)",
+       "2:if a1.index not in self.fixed",
+       "3:a2 = [a3.point for a3 in a1.neighbours]",
+       "3:self.grid.points[a1.index] = np.average(a2, axis=0)",
        "0:self.backport()"] ∧
     CBV.Gen.c15SrcSmootherInit =
       ["def __init__(self, a0)",
